@@ -228,7 +228,7 @@ def main(tier, replay):
                     base.append((sh, mode, pess, bs))
     rng.shuffle(base)
     if tier == "quick":
-        base = base[:70]
+        base = base[:110]
     probes = [txnlab.mk_scenario(f"p{i}", sh, mode, pess, batch_size=bs, causal=(i % 7 == 0)) for i, (sh, mode, pess, bs) in enumerate(base)]
     pres = txnlab.run_scenarios(exe, probes)
     cases = []
@@ -241,9 +241,9 @@ def main(tier, replay):
                 cases.append(txnlab.mk_scenario(f"{tag}-{i}-split", sh, mode, pess, batch_size=bs, extras=[{"at": i, "what": "split", "k": rng.choice(sh["keys"])}]))
             else:
                 cases.append(txnlab.mk_scenario(f"{tag}-{i}-{fk}", sh, mode, pess, batch_size=bs, faults=[{"at": i, "kind": fk}]))
-    if tier == "quick" and len(cases) > 700:
+    if tier == "quick" and len(cases) > 1200:
         rng.shuffle(cases)
-        cases = cases[:700]
+        cases = cases[:1200]
     # heart-beat scenarios: pessimistic transaction kept open, small managed ttl
     hb = []
     for i in range(6 if tier == "quick" else 30):
@@ -259,7 +259,10 @@ def main(tier, replay):
         if r.get("fatal"):
             nviol += 1
             if nviol <= 3:
-                v.violation({"kind": "harness", "correspondence": "txn driver", "error": r["fatal"], "scenario": sc}, has_input=False)
+                if r.get("died"):
+                    v.violation({"kind": "property-oracle", "scenario": sc, "violated": ["the client process aborted while committing this transaction: " + r["fatal"]]})
+                else:
+                    v.violation({"kind": "harness", "correspondence": "txn driver", "error": r["fatal"], "scenario": sc}, has_input=False)
             continue
         bad = rule_check(sc, r)
         nreq = sum(1 for e in r.get("trace", []) if e["kind"] == "send" and e.get("cmd") in ("Prewrite", "Commit"))
